@@ -76,6 +76,14 @@ def legal_moves(case):
     return set(cm[2].items()) | (set((a, a) for a in cm[3]) if len(cm) > 3 else set())
 
 
+def population(case):
+    """number of nodes that carry one of the reported statuses"""
+    n = len(case['gc']['nodes'])
+    if KIND[case['sim']] == 'generic':
+        n -= len(set(i % n for i in case.get('bystanders') or []))
+    return n
+
+
 def tmax_of(case):
     return INF if case['tmax'] == 'inf' else case['tmax']
 
@@ -83,7 +91,10 @@ def tmax_of(case):
 def initial_status(case):
     nodes = [oracles.tolabel(u) for u in case['gc']['nodes']]
     if 'IC' in case and KIND[case['sim']] == 'generic':
-        return dict(zip(nodes, case['IC']))
+        ic = dict(zip(nodes, case['IC']))
+        for i in case.get('bystanders') or []:
+            ic[nodes[i % len(nodes)]] = 'V'       # e.g. vaccinated: a permanent status no rule mentions and return_statuses does not list
+        return ic
     st_ = {u: 'S' for u in nodes}
     for u in case['I0']:
         st_[oracles.tolabel(u)] = 'I'
@@ -400,6 +411,8 @@ def sim_case(draw, sims=SIMS, nmax=25, labels=('int', 'perm', 'str', 'tuple'), f
         case['omit_defaults'] = True
     if draw(st.integers(0, 7)) == 0:
         case['as_view'] = True
+    if kind == 'generic' and n >= 3 and draw(st.integers(0, 4)) == 0:
+        case['bystanders'] = sorted(set(draw(st.integers(0, n - 1)) for _ in range(draw(st.integers(1, 2)))))
     if draw(st.integers(0, 4)) == 0:
         case['positional'] = True
     if draw(st.integers(0, 5)) == 0:
@@ -507,6 +520,7 @@ def large_case(draw, sim):
         sts = statuses_of(case)
         case['IC'] = [R.choice(sts) for _ in gc['nodes']]
         case.pop('ic_extra', None)
+    case.pop('bystanders', None)
     if 'rec_steps' in case:
         case['rec_steps'] = [R.randint(1, 3) for _ in gc['nodes']]
     case['large'] = [shape, wkind]
